@@ -67,6 +67,7 @@ type Goroutine struct {
 	justYielded bool
 	yielded     bool
 	vc          vclock
+	vi          int // index of this goroutine in vector clocks
 }
 
 type Violation struct {
@@ -120,6 +121,9 @@ type Interp struct {
 	specDepth int
 	race      raceState
 	tickSeq   int64
+	syncDepth int // >0 while a callback is run to completion inside an intrinsic (no preemption there)
+	// preemption-bounded scheduling (vrt.Preemptions): at most preemptBound involuntary switches
+	preemptBound, preemptUsed int
 	// assumptions made inside the speculative arms being executed (re-added, guarded by the
 	// arm's condition, when the arms are merged)
 	specAssumes []*Term
@@ -658,6 +662,11 @@ func (in *Interp) invoke(g *Goroutine, fv *FuncV, args []Value, retReg int, onRe
 		}
 		res, tail := h(in, g, fn, all)
 		if tail != nil {
+			if tail.done != nil {
+				orig, rr, done := onRet, retReg, tail.done
+				in.invoke(g, tail.fn, tail.args, -1, func(v Value) { done(); in.deliver(g, v, rr, orig) }, isDefer)
+				return
+			}
 			in.invoke(g, tail.fn, tail.args, retReg, onRet, isDefer)
 			return
 		}
@@ -701,6 +710,8 @@ func (in *Interp) callSync(g *Goroutine, fv *FuncV, args []Value) Value {
 	var result Value
 	finished := false
 	depth := len(g.stack)
+	in.syncDepth++
+	defer func() { in.syncDepth-- }()
 	in.invoke(g, fv, args, -1, func(res Value) { result = res; finished = true }, false)
 	for !finished {
 		if g.blocked {
